@@ -776,6 +776,12 @@ func (vm *vm) popTryFrame() {
 }
 
 func (vm *vm) restoreStacks(iterLen, refLen uint32) (ex *Exception) {
+	return vm._restoreStacks(iterLen, refLen, true)
+}
+
+// _restoreStacks truncates the iterator and reference stacks. If closeIters is false (unwinding because of
+// an uncatchable error such as an interrupt or a stack overflow) the discarded iterators are not closed.
+func (vm *vm) _restoreStacks(iterLen, refLen uint32, closeIters bool) (ex *Exception) {
 	// Restore other stacks
 	defer func() {
 		// also when an iterator's return() is aborted by an uncatchable (the panic leaves this function)
@@ -796,7 +802,7 @@ func (vm *vm) restoreStacks(iterLen, refLen uint32) (ex *Exception) {
 	}()
 	iterTail := vm.iterStack[iterLen:]
 	for i := len(iterTail) - 1; i >= 0; i-- {
-		if iter := iterTail[i].iter; iter != nil {
+		if iter := iterTail[i].iter; iter != nil && closeIters {
 			ex1 := vm.try(func() {
 				iter.returnIter()
 			})
@@ -833,7 +839,7 @@ func (vm *vm) handleThrow(arg interface{}) *Exception {
 		vm.sp = int(tf.sp)
 		vm.stash = tf.stash
 		vm.privEnv = tf.privEnv
-		_ = vm.restoreStacks(tf.iterLen, tf.refLen)
+		_ = vm._restoreStacks(tf.iterLen, tf.refLen, ex != nil)
 		// restoreStacks runs iterator return() methods, which push try frames and may reallocate vm.tryStack
 		tf = &vm.tryStack[len(vm.tryStack)-1]
 
